@@ -139,12 +139,14 @@ def attach_clone(prop="C13"):
         return res
 
     # clone is overridden along the class hierarchy; one shared outermost-call counter
-    for cls in (BinaryTreeNode, E.MathExpression, E.ConstantExpression, E.VariableExpression):
-        if "clone" in cls.__dict__:
-            contracts.attach(cls, "clone", around=around)
-    for name in ("UnaryExpression",):
-        cls = getattr(E, name)
-        if "clone" in cls.__dict__:
+    seen, stack = set(), [BinaryTreeNode]
+    while stack:
+        cls = stack.pop()
+        if cls in seen:
+            continue
+        seen.add(cls)
+        stack.extend(cls.__subclasses__())
+        if "clone" in cls.__dict__ and not getattr(cls.__dict__["clone"], "__vmon_original__", None):
             contracts.attach(cls, "clone", around=around)
 
     def around_cfr(orig, self, node=None):
@@ -202,4 +204,4 @@ def attach_clone(prop="C13"):
             rec.nontrivial(("cfr", sh, tuple(path)))
         return res
 
-    contracts.attach(E.MathExpression, "clone_from_root", around=around_cfr)
+    contracts.attach_hierarchy(E.MathExpression, "clone_from_root", around=around_cfr)
